@@ -1098,6 +1098,80 @@ fn long_segment_stage(ctx: &Ctx) -> u64 {
     n
 }
 
+/// A base store that accepts empty values (the trait leaves that to the implementation).
+#[derive(Default)]
+struct LenientStorage {
+    data: Map,
+}
+impl Storage for LenientStorage {
+    fn get(&self, key: &[u8]) -> Option<Vec<u8>> {
+        self.data.get(key).cloned()
+    }
+    fn range<'a>(&'a self, start: Option<&[u8]>, end: Option<&[u8]>, order: Order) -> Box<dyn Iterator<Item = (Vec<u8>, Vec<u8>)> + 'a> {
+        Box::new(model_range(&self.data, start, end, order).into_iter())
+    }
+    fn set(&mut self, key: &[u8], value: &[u8]) {
+        self.data.insert(key.to_vec(), value.to_vec());
+    }
+    fn remove(&mut self, key: &[u8]) {
+        self.data.remove(key);
+    }
+}
+
+/// The value is not the view's business: writing an EMPTY value through a view is a `set` of the
+/// raw key like any other. Over a base that refuses empty values the refusal (a panic) comes
+/// through and nothing changes; over a base that accepts them the raw key holds the empty value
+/// and the view shows it.
+fn empty_value_stage(ctx: &Ctx, all_paths: &[Vec<Vec<u8>>]) -> u64 {
+    let mut n = 0u64;
+    for path in all_paths {
+        if path.iter().any(|s| s.len() > 1000) {
+            continue;
+        }
+        let prefix = enc_path(path);
+        for multi in [false, true] {
+            if !multi && path.len() != 1 {
+                continue;
+            }
+            for present in [false, true] {
+                let mut rawkey = prefix.clone();
+                rawkey.extend_from_slice(b"k");
+                let mut base = Map::new();
+                base.insert(b"\x00other".to_vec(), b"o".to_vec());
+                if present {
+                    base.insert(rawkey.clone(), b"old".to_vec());
+                }
+                let case = json!({"engine": "kv-prefix", "stage": "empty-value", "path": path_json(path), "multi": multi, "key_present_before": present});
+                // (1) refusing base
+                n += 1;
+                let mut app = app_with(&base);
+                let r = catch(|| view_mut(&mut app, path, multi).set(b"k", b""));
+                if r.is_ok() || app.storage().data != base {
+                    ctx.violation("c07:empty-value:not-a-set-of-the-raw-key", json!({"case": case, "base": "refuses empty values (panics)", "view_set_panicked": r.is_err(), "raw_store_changed": app.storage().data != base}));
+                }
+                // (2) accepting base
+                n += 1;
+                let mut lapp: cw_multi_test::App<cw_multi_test::BankKeeper, cosmwasm_std::testing::MockApi, LenientStorage> = AppBuilder::new().with_storage(LenientStorage { data: base.clone() }).build(no_init);
+                let refs: Vec<&[u8]> = path.iter().map(|s| s.as_slice()).collect();
+                let r = catch(|| {
+                    if multi {
+                        lapp.prefixed_multilevel_storage_mut(&refs).set(b"k", b"")
+                    } else {
+                        lapp.prefixed_storage_mut(&path[0]).set(b"k", b"")
+                    }
+                });
+                let mut want = base.clone();
+                want.insert(rawkey.clone(), vec![]);
+                let got_view = catch(|| if multi { lapp.prefixed_multilevel_storage(&refs).get(b"k") } else { lapp.prefixed_storage(&path[0]).get(b"k") });
+                if r.is_err() || lapp.storage().data != want || got_view != Ok(Some(vec![])) {
+                    ctx.violation("c07:empty-value:not-a-set-of-the-raw-key", json!({"case": case, "base": "accepts empty values", "view_set_panicked": r.is_err(), "raw_key_holds_empty_value": lapp.storage().data.get(&rawkey) == Some(&vec![]), "view_get": format!("{:?}", got_view)}));
+                }
+            }
+        }
+    }
+    n
+}
+
 pub fn run_c07(ctx: &Ctx) -> i32 {
     let all_paths = paths(ctx.tier);
     let sampler = Sampler::new(6, ctx.seed);
@@ -1201,13 +1275,15 @@ pub fn run_c07(ctx: &Ctx) -> i32 {
 
     let long_checks = long_segment_stage(ctx);
     evals.fetch_add(long_checks, Relaxed);
+    let empty_value_checks = empty_value_stage(ctx, &all_paths);
+    evals.fetch_add(empty_value_checks, Relaxed);
     let coverage = json!({
         "states": states.load(Relaxed),
         "transitions": transitions.load(Relaxed),
         "traces_validated_against_impl": states.load(Relaxed),
         "evaluations": evals.load(Relaxed),
         "distinct_nontrivial": distinct.len(),
-        "long_segment_checks": long_checks,
+        "long_segment_checks": long_checks, "empty_value_checks": empty_value_checks,
         "rule": "states = (namespace path, raw base content, write sequence) cases run through App::prefixed_*storage* views over a raw store; evaluations = individual get/range/raw-diff comparisons against the prefix-filter model; distinct_nontrivial = distinct range results",
         "exhaustive": true,
         "paths": all_paths.len(),
